@@ -318,6 +318,19 @@ def str_eq(a, b):
     if isinstance(b, Choice):
         return choice_eq(b, a)
     sa, sb = segs_of(a), segs_of(b)
+    # a canonical integer rendering against a concrete numeral
+    for x, y in ((sa, b), (sb, a)):
+        if len(x) == 1 and isinstance(x[0], Fmt) and isinstance(y, str) and x[0].width == 0:
+            f = x[0]
+            try:
+                if f.conv == 'd':
+                    ok = y == str(int(y)) if y.lstrip('-').isdigit() else False
+                    return simp(zint(f.val) == int(y)) if ok else False
+                n = int(y, 16)
+                ok = y == (('%X' if f.conv == 'X' else '%x') % n)
+                return simp(zint(f.val) == n) if ok else False
+            except ValueError:
+                return False
     ca = all(isinstance(s, int) or is_symint(s) for s in sa)
     cb = all(isinstance(s, int) or is_symint(s) for s in sb)
     if ca and cb:
